@@ -175,6 +175,7 @@ let do_query id ins outs =
 
 (* ---- engine forwarder ----
    fwd <id> <n> (<"-"|d<domhex>> <upid>)*n <qnamehex> => <saw list> <ok> *)
+let fwd_hide_default = ref false
 let do_fwd id ins outs =
   match ins with
   | nstr :: rest ->
@@ -186,7 +187,7 @@ let do_fwd id ins outs =
     let dom_of d = if d = "-" then None else Some (bytes_of_token (String.sub d 1 (String.length d - 1))) in
     let fs = List.fold_left (fun acc (d, u) -> fwd_set acc (new_fwd (dom_of d) (z_of_int u))) [] fl in
     (* upstreams 5 and 6 are dead (nothing listens): the query is lost there and must reach nobody else *)
-    let live l = List.filter (fun z -> int_of_z z < 5) l in
+    let live l = List.filter (fun z -> int_of_z z < 5 && not (!fwd_hide_default && int_of_z z = 0)) l in
     let show l = (match live l with [] -> "none" | l' -> String.concat "," (List.map (fun z -> string_of_int (int_of_z z)) l')) in
     let model = show (fwd_resolve fs qname) in
     (* spec over label lists: the configured entries in their final order (after Set's replacement) *)
@@ -194,10 +195,10 @@ let do_fwd id ins outs =
     let spec = show [spec_get sfs (split_dots qname [])] in
     let impl = List.hd outs in
     let tag = (if model = "0" then "default" else if model = "none" then "fwd-dead" else "fwd") ^ (if List.exists (fun (d,_) -> d = "-") fl then "+nodomain" else "") in
-    if impl <> spec then verdict "fwd" id "spec:C10" tag (Printf.sprintf "impl=%s spec=%s model=%s" impl spec model)
-    else if impl <> model then verdict "fwd" id "diff" tag (Printf.sprintf "impl=%s model=%s" impl model)
-    else verdict "fwd" id "ok" tag ""
-  | _ -> verdict "fwd" id "diff" "malformed-line" ""
+    if impl <> spec then verdict (if !fwd_hide_default then "dfwd" else "fwd") id "spec:C10" tag (Printf.sprintf "impl=%s spec=%s model=%s" impl spec model)
+    else if impl <> model then verdict (if !fwd_hide_default then "dfwd" else "fwd") id "diff" tag (Printf.sprintf "impl=%s model=%s" impl model)
+    else verdict (if !fwd_hide_default then "dfwd" else "fwd") id "ok" tag ""
+  | _ -> verdict (if !fwd_hide_default then "dfwd" else "fwd") id "diff" "malformed-line" ""
 
 (* ---- engine profile ----
    prof <id> <n> (<entry> <idhex>)*n <src> <dst> <mac> => <gothex> *)
@@ -1097,7 +1098,22 @@ let () =
       | "ttl" :: id :: rest -> let (i, o) = split_arrow rest in do_ttl id i o
       | "mdns" :: id :: rest -> let (i, o) = split_arrow rest in do_mdns id i o
       | "flow" :: id :: rest -> let (i, o) = split_arrow rest in do_flow id i o
-      | "fwd" :: id :: rest -> let (i, o) = split_arrow rest in do_fwd id i o
+      | "fwd" :: id :: rest -> let (i, o) = split_arrow rest in fwd_hide_default := false; do_fwd id i o
+      | "dfwd" :: id :: rest ->
+        (* the real daemon: run.go appends the NextDNS default after the configured forwarders; what reaches it cannot be
+           seen from inside the namespace, so only the configured upstreams are compared *)
+        let (i, o) = split_arrow rest in
+        (match o with
+         | x :: _ when String.length x > 10 && String.sub x 0 10 = "DAEMONFAIL" -> verdict "dfwd" id "diff" "daemon-did-not-start" (string_of_bytes (bytes_of_token (String.sub x 11 (String.length x - 11))))
+         | _ -> fwd_hide_default := true; do_fwd id i o; fwd_hide_default := false)
+      | "dbind" :: id :: rest ->
+        let (i, o) = split_arrow rest in
+        (match i, o with
+         | [kind; pinned], [rc; reported; ms] ->
+           let tag = kind ^ (if pinned = "1" then "/shared-cpu" else "") in
+           if rc = "1" && reported = "1" then verdict "dbind" id "ok" tag ""
+           else verdict "dbind" id "spec:C16" tag (Printf.sprintf "the daemon was started on an address it cannot bind: exit status %s after %s ms, bind failure reported=%s (expected: reported, exit 1)" rc ms reported)
+         | _ -> verdict "dbind" id "diff" "malformed-line" "")
       | "prof" :: id :: rest -> let (i, o) = split_arrow rest in do_prof id i o
       | _ -> ()
     done
